@@ -52,7 +52,11 @@ pub fn run(ctx: &mut Ctx) {
     for case in ctx.cases(800, 60_000) {
         let mut rng = ctx.rng(case);
         let rt = act::runtime(1);
-        rt.block_on(one(ctx, case, &mut rng));
+        if case % 8 == 7 {
+            rt.block_on(slow_subscriber(ctx, case, &mut rng));
+        } else {
+            rt.block_on(one(ctx, case, &mut rng));
+        }
         iroh_docs::verif::set_clock(0);
     }
 }
@@ -345,6 +349,154 @@ async fn one(ctx: &mut Ctx, case: u64, rng: &mut Rng) {
     }
     let _ = h.shutdown().await;
     if churn && produced_events > 0 {
+        ctx.nontrivial(h64(format!("{trace:?}").as_bytes()));
+    }
+    if ctx.want_sample() {
+        ctx.sample(json!({"case": case, "trace": trace}));
+    }
+}
+
+/// A slow consumer and impatient callers. One subscriber has a bounded channel (capacity 1–2) that
+/// a task drains with a delay, so the actor regularly waits inside event delivery; the callers give
+/// up on some requests after a random time (request future dropped: timeout, `select!`, aborted
+/// task). Whatever happens to the requests, afterwards every subscriber must have exactly one event
+/// per entry that is in the replica, in the order the requests were sent, and a subscriber that went
+/// away must not cost the others anything. Time only decides how often the actor is caught waiting,
+/// never the verdict: the oracle is the final content of the replica.
+async fn slow_subscriber(ctx: &mut Ctx, case: u64, rng: &mut Rng) {
+    use std::{sync::{Arc, Mutex}, time::Duration};
+    let uni = Universe::new(rng, 1);
+    let ns = uni.ns.id();
+    let mut store = Store::memory();
+    import_write(&mut store, &uni.ns);
+    for a in &uni.authors {
+        store.import_author(a.clone()).unwrap();
+    }
+    let h = act::spawn(store);
+    if h.open(ns, OpenOpts::default().sync()).await.is_err() {
+        ctx.harness_error("open failed");
+        return;
+    }
+    ctx.eval();
+    let cap = rng.range(1, 2);
+    let delay = Duration::from_millis(rng.range(2, 6) as u64);
+    let (slow_tx, slow_rx) = async_channel::bounded::<Event>(cap);
+    let n_healthy = rng.range(1, 2);
+    let healthy: Vec<_> = (0..n_healthy).map(|_| async_channel::unbounded::<Event>()).collect();
+    let slow_first = rng.chance(1, 2);
+    let mut trace = vec![format!("slow subscriber: capacity {cap}, drained every {delay:?}, subscribed {}; {n_healthy} unbounded subscribers", if slow_first { "first" } else { "last" })];
+    if slow_first && h.subscribe(ns, slow_tx.clone()).await.is_err() {
+        ctx.harness_error("subscribe failed");
+        return;
+    }
+    for (tx, _) in &healthy {
+        let _ = h.subscribe(ns, tx.clone()).await;
+    }
+    if !slow_first && h.subscribe(ns, slow_tx.clone()).await.is_err() {
+        ctx.harness_error("subscribe failed");
+        return;
+    }
+    let seen_slow: Arc<Mutex<Vec<Ev>>> = Default::default();
+    let drainer = {
+        let seen = seen_slow.clone();
+        tokio::spawn(async move {
+            loop {
+                tokio::time::sleep(delay).await;
+                match slow_rx.recv().await {
+                    Ok(e) => seen.lock().unwrap().push(ev(e)),
+                    Err(_) => break,
+                }
+            }
+        })
+    };
+    let n = rng.range(4, 10);
+    let from = [0x51u8; 32];
+    let mut keys: Vec<Vec<u8>> = vec![]; // unique, not prefix related
+    let mut healthy_rx: Vec<Option<async_channel::Receiver<Event>>> = healthy.iter().map(|(_, rx)| Some(rx.clone())).collect();
+    let healthy_tx: Vec<_> = healthy.into_iter().map(|(tx, _)| tx).collect();
+    let drop_at = if n_healthy > 1 && rng.chance(1, 2) { Some(rng.below(n)) } else { None };
+    let mut dropped_at_event: Option<usize> = None;
+    let mut cancelled_while_blocked = 0;
+    for i in 0..n {
+        if drop_at == Some(i) {
+            healthy_rx[1] = None; // this subscriber goes away (its receiver is dropped); the sender kept by the actor now fails
+            trace.push("receiver of the second unbounded subscriber dropped".into());
+            dropped_at_event = Some(i);
+        }
+        let k = vec![b'k', i as u8, 0x61];
+        keys.push(k.clone());
+        let a = rng.below(uni.authors.len());
+        let ts = uni.t0 + i as u64;
+        iroh_docs::verif::set_clock(ts);
+        let e = uni.entry(a, &k, ts, Some(rng.below(4)));
+        let remote = rng.chance(1, 3);
+        let patience = if rng.chance(1, 3) { None } else { Some(Duration::from_micros(rng.below(2 * delay.as_micros() as usize + 1) as u64)) };
+        let fut = async {
+            if remote {
+                h.insert_remote(ns, e.clone(), from, ContentStatus::Complete).await.map(|_| ())
+            } else {
+                h.insert_local(ns, uni.authors[a].id(), k.clone().into(), e.content_hash(), e.content_len()).await
+            }
+        };
+        let r = match patience {
+            None => Some(fut.await.is_ok()),
+            Some(d) => tokio::time::timeout(d, fut).await.ok().map(|r| r.is_ok()),
+        };
+        if r.is_none() {
+            ctx.count("requests_given_up", 1);
+            if slow_tx.is_full() {
+                cancelled_while_blocked += 1;
+                ctx.count("requests_given_up_while_the_slow_channel_was_full", 1);
+            }
+        }
+        trace.push(format!("{} {} -> {}", if remote { "remote" } else { "local" }, E::of(&e).short(), match r { Some(true) => "ok", Some(false) => "refused", None => "caller gave up" }));
+    }
+    // barrier: a read that the actor serves after everything sent before it
+    let dumped = match tokio::time::timeout(Duration::from_secs(20), act::dump(&h, ns)).await {
+        Ok(Ok(d)) => d,
+        _ => {
+            ctx.harness_error("final read did not come back");
+            return;
+        }
+    };
+    // the actor is idle now; let the slow consumer finish what is queued
+    let t = std::time::Instant::now();
+    while !slow_tx.is_empty() && t.elapsed() < Duration::from_secs(10) {
+        tokio::time::sleep(delay).await;
+    }
+    tokio::time::sleep(delay).await;
+    drainer.abort();
+    let mut in_replica: Vec<(usize, SignedEntry)> = dumped.into_iter().filter_map(|e| keys.iter().position(|k| k[..] == *e.key()).map(|i| (i, e))).collect();
+    in_replica.sort_by_key(|(i, _)| *i);
+    let want: Vec<&SignedEntry> = in_replica.iter().map(|(_, e)| e).collect();
+    ctx.count("slow_subscriber_cases", 1);
+    ctx.count("subscriber_drains", 1 + n_healthy as u64);
+    let mut views: Vec<(String, Vec<Ev>, bool)> = vec![("slow".into(), seen_slow.lock().unwrap().clone(), true)];
+    for (i, rx) in healthy_rx.iter().enumerate() {
+        if let Some(rx) = rx {
+            views.push((format!("unbounded{i}"), act::drain(rx).into_iter().map(ev).collect(), true));
+        }
+    }
+    let _ = dropped_at_event;
+    for (name, got, _) in &views {
+        let got_e: Vec<&SignedEntry> = got.iter().map(|e| &e.entry).collect();
+        if got_e != want {
+            let sig = if got_e.len() < want.len() {
+                "applied-entry-without-event"
+            } else if got_e.len() > want.len() {
+                "duplicate-or-extra-event"
+            } else {
+                "event-carries-wrong-entry"
+            };
+            ctx.violation(case, sig, json!({"scenario": "slow subscriber, impatient callers", "subscriber": name,
+                "got": got.iter().map(|e| E::of(&e.entry).short()).collect::<Vec<_>>(),
+                "in_replica": want.iter().map(|e| E::of(e).short()).collect::<Vec<_>>(), "trace": trace}));
+            break;
+        }
+    }
+    drop(healthy_tx);
+    let _ = h.shutdown().await;
+    if cancelled_while_blocked > 0 && !want.is_empty() {
         ctx.nontrivial(h64(format!("{trace:?}").as_bytes()));
     }
     if ctx.want_sample() {
